@@ -13,7 +13,10 @@ RULE = ('histories of 8-40 operations over a growing table of related stream obj
         'H, h, S, C, Cn, V, kappa, mu, sigma, epsilon, Hvap interleaved with every public mutator (T, P, phase, phases, '
         'imol[...] = v, scale, F_mol, empty, link_with with all flag combinations, unlink, copy_like, copy_flow, '
         'copy_thermal_condition, copy_phase, mix_from with and without energy balance, reset_cache, property-package '
-        'reset); the property package is a stub Mixture whose values are an injective affine dyadic function of '
+        'reset between three packages of which two share the Chemicals object and differ only in their property functions); '
+        'one case in eight is scripted: either material moved between the phases of a MultiStream (directly or through its '
+        'phase views) at constant T, P and bit-identical overall composition, or a switch between the two packages sharing '
+        'their Chemicals, each with the same properties read before and after; the property package is a stub Mixture whose values are an injective affine dyadic function of '
         '(package, name, phase, composition, T, P), so a stale value is always visible; executed on the real classes and on '
         'the Coq model; every read value, every raised exception class, the index of every returned object, and a final '
         'snapshot of every object (class, phases, flows, T, P, memo contents, which objects share memo dict / key / '
@@ -39,7 +42,7 @@ PROPS = {  # public property -> (name id, flow, nophase)
 DERIVED = ['rho', 'Cp', 'nu', 'alpha', 'Pr', 'F_vol']
 NAMES = ['H', 'S', 'Cn', 'V', 'kappa', 'mu', 'sigma', 'epsilon', 'Hvap']
 W = [1., .5, 2., .25, 4., .125, 8., .0625, 16.]
-A = [[8., 16., 32.], [24., 40., 4.]]
+A = [[8., 16., 32.], [24., 40., 4.], [24., 40., 4.]]
 ERR = {'AttributeError': 'EOther', 'RuntimeError': 'ERuntime', 'UndefinedPhase': 'EUndefPhase', 'ValueError': 'EValue',
        'IndexError': 'EIndex', 'KeyError': 'EKey', 'TypeError': 'EType'}
 IDS = ['A_', 'B_', 'C_']
@@ -81,6 +84,9 @@ def env():
                                for n, mw in [('A_', 16.), ('B_', 32.), ('C_', 8.)]])
         chems.compile(skip_checks=True)
         thermos.append(tmo.Thermo(chems, mixture=StubMixture(np.array([16., 32., 8.]), pkg), skip_checks=True))
+    # package 2 shares the Chemicals object of package 0 and differs only in its property functions
+    thermos.append(tmo.Thermo(thermos[0].chemicals, mixture=StubMixture(np.array([16., 32., 8.]), 2), skip_checks=True))
+    assert thermos[2].chemicals is thermos[0].chemicals and thermos[1].chemicals is not thermos[0].chemicals
     tmo.settings.set_thermo(thermos[0])
     _env.update(tmo=tmo, thermos=thermos)
     return _env
@@ -91,12 +97,13 @@ KS = [F(2), F(1, 2), F(3), F(0), F(-1), F(4), F(1, 4), F(1)]
 TS = [256., 300., 320., 384., 298.15]
 PS = [65536., 101325., 131072., 32768.]
 PHASE_SETS = ['gl', 'ls', 'gls', 'gs']
+PKGS = [0, 0, 0, 0, 2, 2, 1]
 
 def gen_new(rng):
     if rng.random() < 0.6:
-        return ['new', [[float(rng.choice(FLOWS)) for _ in range(3)]], rng.choice(PHS), rng.choice(TS), rng.choice(PS), 0]
+        return ['new', [[float(rng.choice(FLOWS)) for _ in range(3)]], rng.choice(PHS), rng.choice(TS), rng.choice(PS), rng.choice(PKGS)]
     phases = rng.choice(PHASE_SETS)
-    return ['new', [[float(rng.choice(FLOWS)) for _ in range(3)] for _ in phases], phases, rng.choice(TS), rng.choice(PS), 0]
+    return ['new', [[float(rng.choice(FLOWS)) for _ in range(3)] for _ in phases], phases, rng.choice(TS), rng.choice(PS), rng.choice(PKGS)]
 
 def gen_op(rng, derived=False):
     r = rng.random()
@@ -118,7 +125,7 @@ def gen_op(rng, derived=False):
     if k == 'mix': return [k, i, [rng.randrange(64) for _ in range(rng.randint(1, 3))], rng.random() < 0.5]
     if k == 'view': return [k, i, rng.choice(PHS)]
     if k == 'setphases': return [k, i, rng.choice(PHASE_SETS + ['g', 'l', 'lg'])]
-    if k == 'reset_thermo': return [k, i, rng.randrange(2)]
+    if k == 'reset_thermo': return [k, i, rng.choice([0, 2, 2, 1])]
     return gen_new(rng)
 
 def gen_history(rng, derived=False):
@@ -132,6 +139,70 @@ def gen_history(rng, derived=False):
         ops.append(o)
     return {'ops': ops}
 
+PHASE_PROPS = ['H', 'h', 'S', 'C', 'Cn', 'V', 'kappa', 'mu']
+QUARTERS = [F(0), F(0), F(1, 4), F(1, 2), F(1), F(2), F(3), F(3, 4)]
+
+def scripted_transfer(rng, derived=False):
+    """material moved between the phases of a MultiStream at constant T, P and overall composition (total flow a power
+    of two, so that the phase-summed normalised composition is bit-identical before and after), through imol[phase, ID]
+    or through the phase views; the same properties are read before and after"""
+    phases = rng.choice(PHASE_SETS)
+    rows = [[rng.choice(QUARTERS) for _ in range(3)] for _ in phases]
+    pf = rng.randrange(len(phases)); j = rng.randrange(3)
+    if rows[pf][j] == 0: rows[pf][j] = F(1)
+    tot = sum(sum(r) for r in rows)
+    target = F(4)
+    while target <= tot: target *= 2
+    fix_p, fix_j = rng.randrange(len(phases)), rng.randrange(3)
+    rows[fix_p][fix_j] += target - tot
+    pt = rng.choice([k for k in range(len(phases)) if k != pf])
+    x = rows[pf][j] * rng.choice([F(1), F(1, 2), F(1, 4)])
+    ops = [['new', [[float(v) for v in r] for r in rows], phases, rng.choice(TS), rng.choice(PS), rng.choice([0, 2])]]
+    names = rng.sample(PHASE_PROPS + (DERIVED if derived else []), rng.randint(2, 4))
+    via_views = rng.random() < 0.5
+    if via_views:
+        ops += [['view', 0, phases[pf]], ['view', 0, phases[pt]]]        # objects 1 and 2
+    if rng.random() < 0.3:
+        ops.append(['read', 0, rng.choice(['sigma', 'Hvap'])])
+    ops += [['read', 0, n] for n in names]
+    if via_views:
+        ops += [['setflow', 1, 'g', j, float(rows[pf][j] - x)], ['setflow', 2, 'g', j, float(rows[pt][j] + x)]]
+    else:
+        ops += [['setflow', 0, phases[pf], j, float(rows[pf][j] - x)], ['setflow', 0, phases[pt], j, float(rows[pt][j] + x)]]
+    ops += [['read', 0, n] for n in names]
+    if via_views:
+        ops += [['read', 1, rng.choice(PHASE_PROPS)], ['read', 2, rng.choice(PHASE_PROPS)]]
+    for _ in range(rng.randint(0, 6)):
+        ops.append(gen_op(rng, derived))
+    return {'ops': ops}
+
+def scripted_package_switch(rng, derived=False):
+    """property-package change between packages that share the Chemicals object and differ only in their property
+    functions, on a Stream, a MultiStream and its phase views, with the same properties read before and after"""
+    a, b = rng.choice([(0, 2), (2, 0)])
+    new = gen_new(rng); new[5] = a
+    multi = len(new[1]) > 1
+    if multi:
+        for r in new[1]: r[rng.randrange(3)] = float(rng.choice([1, 2, 3]))
+    else:
+        new[1][0] = [float(rng.choice([1, 2, 3, F(1, 2)])) for _ in range(3)]
+    ops = [new]
+    targets = [0]
+    if multi and rng.random() < 0.7:
+        ops.append(['view', 0, rng.choice(new[2])]); targets.append(1)
+    names = rng.sample(list(PROPS) + (DERIVED if derived else []), rng.randint(2, 4))
+    ops += [['read', t, n] for t in targets for n in names]
+    ops.append(['reset_thermo', 0, b])
+    ops += [['read', t, n] for t in targets for n in names]
+    if rng.random() < 0.5:
+        ops += [['reset_thermo', 0, a]] + [['read', t, n] for t in targets for n in names]
+    for _ in range(rng.randint(0, 6)):
+        ops.append(gen_op(rng, derived))
+    return {'ops': ops}
+
+def gen_scripted(rng, derived=False):
+    return (scripted_transfer if rng.random() < 0.5 else scripted_package_switch)(rng, derived)
+
 DEFECT_5STEP = {'ops': [['new', [[1., 3., 0.]], 'l', 300., 101325., 0], ['proxy', 0], ['read', 0, 'h'], ['setT', 0, 320.],
                         ['read', 1, 'h'], ['setT', 0, 300.], ['read', 0, 'h']]}
 CORPUS = [DEFECT_5STEP]
@@ -139,10 +210,11 @@ WITNESSES = []
 
 def gen_cases(rng, tier):
     n = 300 if tier == 'quick' else 3000
-    return [gen_history(rng) for _ in range(n)]
+    return [gen_scripted(rng) if k % 8 == 0 else gen_history(rng) for k in range(n)]
 
 def search_cases(rng, tier):
-    return [gen_history(rng, derived=True) for _ in range(200 if tier == 'quick' else 2000)]
+    n = 200 if tier == 'quick' else 2000
+    return [gen_scripted(rng, True) if k % 3 == 0 else gen_history(rng, derived=True) for k in range(n)]
 
 # ------------------------------------------------------------------ implementation side
 def is_multi(s):
